@@ -25,6 +25,7 @@ import (
 	"sync"
 	"sync/atomic"
 	"time"
+	"unsafe"
 
 	"github.com/ctessum/geom"
 
@@ -1029,6 +1030,29 @@ const spare = 8
 // the following members and a tail of sentinel points). Empty members alternate between nil and an
 // empty slice with capacity. The whole buffer is compared bit for bit after the calls.
 func flatten(g geom.Geom) (geom.Geom, []geom.Point) {
+	r, buf, _ := flattenT(g)
+	return r, buf
+}
+
+// sentinel entries behind the used part of the slice-of-slices tables
+var sentRing = []geom.Point{sentinel, {X: -7.25, Y: 9.5}, sentinel}
+
+// hdr is the header of one table entry: address of the first element, length, capacity
+type hdr struct {
+	p    *geom.Point
+	l, c int
+}
+
+func hdrOf(ps []geom.Point) hdr { return hdr{unsafe.SliceData(ps), len(ps), cap(ps)} }
+
+// flattenT: as described above for the points, and the SAME layout one level up: the rings of a polygon
+// / of all polygons of a multi-polygon are consecutive windows of ONE []Path table (polygon k is
+// tab[a:b] with capacity reaching over the rings of the polygons behind it and `spare` sentinel rings);
+// the polygons of a multi-polygon are a window of a []Polygon table, the lines of a multi-line string a
+// window of a []LineString table, each followed by sentinel entries within the capacity.  snap() reads
+// the headers (address, len, cap) of EVERY table entry, sentinels included; it is compared before vs
+// after all calls like the point buffer (a callee that appends to a receiver's ring list writes there).
+func flattenT(g geom.Geom) (geom.Geom, []geom.Point, func() []hdr) {
 	total := nVertices(g)
 	buf := make([]geom.Point, 0, total+spare)
 	empties := 0
@@ -1066,7 +1090,7 @@ func flatten(g geom.Geom) (geom.Geom, []geom.Point) {
 			}
 		}
 	default:
-		return g, nil
+		return g, nil, func() []hdr { return nil }
 	}
 	for k := 0; k < spare; k++ {
 		buf = append(buf, sentinel)
@@ -1082,30 +1106,86 @@ func flatten(g geom.Geom) (geom.Geom, []geom.Point) {
 	}
 	switch t := g.(type) {
 	case geom.LineString:
-		return geom.LineString(next()), buf
+		return geom.LineString(next()), buf, func() []hdr { return nil }
 	case geom.MultiLineString:
-		r := make(geom.MultiLineString, len(t))
+		tab := make([]geom.LineString, len(t)+spare)
 		for i := range t {
-			r[i] = next()
+			tab[i] = next()
 		}
-		return r, buf
-	case geom.Polygon:
-		r := make(geom.Polygon, len(t))
-		for i := range t {
-			r[i] = next()
+		for i := len(t); i < len(tab); i++ {
+			tab[i] = sentRing
 		}
-		return r, buf
-	case geom.MultiPolygon:
-		r := make(geom.MultiPolygon, len(t))
-		for i := range t {
-			r[i] = make(geom.Polygon, len(t[i]))
-			for j := range t[i] {
-				r[i][j] = next()
+		return geom.MultiLineString(tab[:len(t)]), buf, func() []hdr {
+			h := make([]hdr, len(tab))
+			for i := range tab {
+				h[i] = hdrOf(tab[i])
 			}
+			return h
 		}
-		return r, buf
+	case geom.Polygon:
+		tab := make([]geom.Path, len(t)+spare)
+		for i := range t {
+			tab[i] = next()
+		}
+		for i := len(t); i < len(tab); i++ {
+			tab[i] = sentRing
+		}
+		return geom.Polygon(tab[:len(t)]), buf, func() []hdr {
+			h := make([]hdr, len(tab))
+			for i := range tab {
+				h[i] = hdrOf(tab[i])
+			}
+			return h
+		}
+	case geom.MultiPolygon:
+		nr := 0
+		for i := range t {
+			nr += len(t[i])
+		}
+		tab := make([]geom.Path, nr+spare)
+		ptab := make([]geom.Polygon, len(t)+spare)
+		a := 0
+		for i := range t {
+			for j := range t[i] {
+				tab[a+j] = next()
+			}
+			ptab[i] = geom.Polygon(tab[a : a+len(t[i])]) // cap reaches over the rings of the polygons behind it
+			a += len(t[i])
+		}
+		for i := nr; i < len(tab); i++ {
+			tab[i] = sentRing
+		}
+		for i := len(t); i < len(ptab); i++ {
+			ptab[i] = geom.Polygon(tab[nr : nr+1])
+		}
+		return geom.MultiPolygon(ptab[:len(t)]), buf, func() []hdr {
+			h := make([]hdr, 0, len(tab)+len(ptab))
+			for i := range tab {
+				h = append(h, hdrOf(tab[i]))
+			}
+			for i := range ptab {
+				var p0 *geom.Point
+				if len(ptab[i]) > 0 || cap(ptab[i]) > 0 {
+					p0 = (*geom.Point)(unsafe.Pointer(unsafe.SliceData(ptab[i])))
+				}
+				h = append(h, hdr{p0, len(ptab[i]), cap(ptab[i])})
+			}
+			return h
+		}
 	}
-	return g, buf
+	return g, buf, func() []hdr { return nil }
+}
+
+func sameHdrs(a, b []hdr) bool {
+	if len(a) != len(b) {
+		return false
+	}
+	for i := range a {
+		if a[i] != b[i] {
+			return false
+		}
+	}
+	return true
 }
 
 func sameBits(a, b []geom.Point) bool {
@@ -1204,8 +1284,9 @@ func concurrentCallers(g geom.Geom, tol float64, ref string) (dev string, panicM
 					note("", fmt.Sprintf("in-concurrent-call %v", e), false)
 				}
 			}()
-			priv, buf := flatten(cloneGeom(g))
+			priv, buf, snap := flattenT(cloneGeom(g))
 			saved := append([]geom.Point(nil), buf...)
+			savedH := snap()
 			<-start
 			for k := 0; k < rounds; k++ {
 				t := vproto.GeomToks(priv.(geom.Simplifier).Simplify(tol))
@@ -1213,7 +1294,7 @@ func concurrentCallers(g geom.Geom, tol float64, ref string) (dev string, panicM
 					note(t, "", false)
 				}
 			}
-			if !sameBits(buf, saved) {
+			if !sameBits(buf, saved) || !sameHdrs(snap(), savedH) {
 				note("", "", true)
 			}
 		}()
@@ -1226,12 +1307,13 @@ func concurrentCallers(g geom.Geom, tol float64, ref string) (dev string, panicM
 }
 
 func simplifyOne(g0 geom.Geom, tol float64, conc bool) string {
-	g, buf := flatten(g0)
+	g, buf, snap := flattenT(g0)
 	s, isS := g.(geom.Simplifier)
 	if !isS {
 		return "badgeom"
 	}
 	saved := append([]geom.Point(nil), buf...)
+	savedH := snap()
 	o := s.Simplify(tol)
 	first := vproto.GeomToks(o)
 	ref := first // the answer of the call made alone; `first` may become a deviating concurrent answer
@@ -1263,7 +1345,7 @@ func simplifyOne(g0 geom.Geom, tol float64, conc bool) string {
 		res += " members " + vproto.GeomToks(m)
 	}
 	same := "same"
-	if !sameBits(buf, saved) || ccMutated {
+	if !sameBits(buf, saved) || ccMutated || !sameHdrs(snap(), savedH) {
 		same = "mutated"
 	}
 	if nVertices(g) <= 80 {
@@ -1273,7 +1355,7 @@ func simplifyOne(g0 geom.Geom, tol float64, conc bool) string {
 		swapped := append([]geom.Point(nil), buf...)
 		o2 := s.Simplify(tol)
 		res += " again " + vproto.GeomToks(o2)
-		if !sameBits(buf, swapped) {
+		if !sameBits(buf, swapped) || !sameHdrs(snap(), savedH) {
 			same = "mutated"
 		}
 		for i := range buf {
